@@ -247,9 +247,17 @@ fn run_streams(ctx: &Ctx) -> CheckResult {
                 1 + rng.below(9)
             };
             let len = want.min(total - n) as usize;
-            // mostly periodic content with noise (keeps both sides fast and the counters uneven)
-            for (i, b) in buf[..len].iter_mut().enumerate() {
-                *b = ((n as usize + i) % 251) as u8 ^ ((i >> 9) as u8);
+            // content by variant: constant / period 2 streams drive a handful of counters past
+            // 2^31 and, for the constant stream, past 2^32 (wrapping) with REAL data; the others
+            // are periodic with noise (uneven counters around 10^8)
+            match vi {
+                0 => buf[..len].iter_mut().for_each(|b| *b = 0x41),
+                3 => buf[..len].iter_mut().enumerate().for_each(|(i, b)| *b = if (n as usize + i) % 2 == 0 { 0xa4 } else { 0x0e }),
+                _ => {
+                    for (i, b) in buf[..len].iter_mut().enumerate() {
+                        *b = ((n as usize + i) % 251) as u8 ^ ((i >> 9) as u8);
+                    }
+                }
             }
             g.update(&buf[..len]);
             m.update(&buf[..len]);
